@@ -1,14 +1,20 @@
 From Xdis Require Import Base.Prelude Base.Result Base.OpTable Base.Bits Model.Instr Spec.Dis Model.Resolve Gen.Opcodes Gen.RefOpcodes
   Model.ResolveChecks Proofs.InstrProofs Proofs.C02Tables.
 
-(* a free variable is never also a local: then the two constructions of the merged table coincide *)
-Lemma localsplus_eq tb : forallb (fun f => negb (zmem f (tb_vars tb))) (tb_frees tb) = true ->
-  model_localsplus tb = spec_localsplus tb.
+(* the two constructions of the merged table coincide: only the cells are merged with the locals *)
+Lemma model_merge_frees vars l : model_merge vars 0 l = l.
+Proof. induction l as [|c l IH]; cbn [model_merge]; [reflexivity | rewrite IH; reflexivity]. Qed.
+
+Lemma model_merge_cells vars cells frees :
+  model_merge vars (List.length cells) (cells ++ frees) = filter (fun c => negb (zmem c vars)) cells ++ frees.
 Proof.
-  intros H. unfold model_localsplus, spec_localsplus. f_equal. rewrite filter_app. f_equal.
-  induction (tb_frees tb) as [|f l IH]; [reflexivity|]. cbn [forallb] in H. apply andb_true_iff in H as [H1 H2].
-  cbn [filter]. rewrite H1. f_equal. apply IH. exact H2.
+  induction cells as [|c l IH]; cbn [List.length app model_merge filter].
+  - apply model_merge_frees.
+  - rewrite IH. destruct (zmem c vars); reflexivity.
 Qed.
+
+Lemma localsplus_eq tb : model_localsplus tb = spec_localsplus tb.
+Proof. unfold model_localsplus, spec_localsplus. rewrite model_merge_cells. reflexivity. Qed.
 
 (* per-opcode plans agree, for the 9 tables with an installed interpreter *)
 Lemma oracle_plans_ok : forallb (fun '(T, R) => plans_ok T R) oracle_pairs = true.
@@ -18,10 +24,9 @@ Lemma plan_eqb_eq a b : plan_eqb a b = true -> a = b.
 Proof. destruct a, b; cbn; intros H; try discriminate; try reflexivity; f_equal; apply Z.eqb_eq; exact H. Qed.
 
 Theorem resolve_agree T R tb op arg : In (T, R) oracle_pairs -> 0 <= op < 256 -> spec_plan R op <> PlNone ->
-  forallb (fun f => negb (zmem f (tb_vars tb))) (tb_frees tb) = true ->
   model_resolve T tb op arg = spec_resolve R tb op arg.
 Proof.
-  intros Hin Hop Hn Hf. unfold model_resolve, spec_resolve. rewrite (localsplus_eq tb Hf).
+  intros Hin Hop Hn. unfold model_resolve, spec_resolve. rewrite (localsplus_eq tb).
   pose proof (proj1 (forallb_forall _ _) oracle_plans_ok _ Hin) as H. cbv beta iota in H.
   pose proof (byte_sweep _ H op Hop) as Hp. unfold plan_ok in Hp.
   destruct (spec_plan R op) eqn:E; try congruence; apply plan_eqb_eq in Hp; rewrite Hp; reflexivity.
@@ -33,7 +38,8 @@ Definition cmp_spelling_diffs : list (string * list Z) := map (fun '(T, R) => (t
 Lemma cmp_spelling_known : forallb (fun '(_, d) => forallb (fun i => zmem i [7; 9; 10]) d) cmp_spelling_diffs = true.
 Proof. vm_compute. reflexivity. Qed.
 
+(* a parameter that is also a cell appears once; a free variable named like a local keeps its own slot *)
 Lemma localsplus_example :
-  let tb := {| tb_consts := []; tb_names := []; tb_vars := [118000; 118001; 118002; 118003]; tb_cells := [118000; 99001]; tb_frees := [102000]; tb_ncmp := 6 |} in
-  model_localsplus tb = [118000; 118001; 118002; 118003; 99001; 102000] /\ forallb (fun f => negb (zmem f (tb_vars tb))) (tb_frees tb) = true.
-Proof. split; reflexivity. Qed.
+  let tb := {| tb_consts := []; tb_names := []; tb_vars := [118000; 118001; 118002; 118003]; tb_cells := [118000; 99001]; tb_frees := [102000; 118001]; tb_ncmp := 6 |} in
+  model_localsplus tb = [118000; 118001; 118002; 118003; 99001; 102000; 118001].
+Proof. reflexivity. Qed.
